@@ -115,6 +115,9 @@ def run_one(kind, store, used, shallow, dry, cachemode, read_only=False, cache_r
             elif pathform == "dotdot":
                 os.makedirs(w.p("elsewhere"), exist_ok=True)
                 spath = os.path.join(w.p("elsewhere"), "..", "store")
+            elif pathform == "braces":
+                # a directory name with characters that mean something to str.format
+                spath = os.path.join(w.p("pr{0}ject {x}"), "store")
             odb = make_odb(kind, spath, read_only=read_only)
         for n in store:
             put_raw(odb, oid_of(n), bytes_of(n, store_alg))
@@ -140,7 +143,8 @@ def run_one(kind, store, used, shallow, dry, cachemode, read_only=False, cache_r
 
             for c, data in BULK.items():
                 put_raw(odb, BULK_MD5[c], data)
-        full_before = store_snapshot(w.p("store"))
+        snap_root = odb.path if pathform == "braces" else w.p("store")
+        full_before = store_snapshot(snap_root)
         before = objects_only(full_before)
         store_oids = set(before)
 
@@ -178,7 +182,7 @@ def run_one(kind, store, used, shallow, dry, cachemode, read_only=False, cache_r
             )
         except BaseException as e:  # noqa: BLE001
             exc = e
-        full_after = store_snapshot(w.p("store"))
+        full_after = store_snapshot(snap_root)
         after = objects_only(full_after)
         if dry and exc is None and full_after != full_before:
             gone = sorted(str(k) for k in set(full_before) - set(full_after))
@@ -285,7 +289,8 @@ def run_case(case):
                     res["viol"].append((sig + "/unpacked-dir", detail, sub))
     # the store path spelled with a trailing separator / through '..', and 1300 extra unused objects
     if len(store) == len(universe(tier)[0]) and case["kind"] in ("local", "base"):
-        extra = [("trail", False, False), ("dotdot", False, False), ("plain", True, False), ("plain", False, True)]
+        extra = [("trail", False, False), ("dotdot", False, False), ("braces", False, False), ("plain", True, False),
+                 ("plain", False, True)]
         for pathform, bulk, odd in extra:
             for used in ([], ["A"], ["A", "x"]):
                 for shallow in (True, False):
